@@ -170,6 +170,8 @@ pub struct Interp {
     /// signatures of open known findings that are tolerated in place
     pub tolerate: Vec<String>,
     pub known_hits: Vec<String>,
+    /// (directory, name) pairs whose existence is unknown after a failed mutating call
+    pub uncertain: Vec<(NodeId, [u8; 11])>,
 }
 
 pub fn ek(e: &E) -> String {
@@ -226,6 +228,7 @@ impl Interp {
             written_ranges: vec![],
             tolerate: vec![],
             known_hits: vec![],
+            uncertain: vec![],
         };
         let pv = it.pvols.clone();
         for p in &pv {
@@ -337,6 +340,24 @@ impl Interp {
         }
     }
 
+    fn is_uncertain(&self, dir: NodeId, name: &str) -> bool {
+        match names::ref_parse(name) {
+            RefName::Valid(n) => self.uncertain.iter().any(|(d, x)| *d == dir && *x == n),
+            _ => false,
+        }
+    }
+
+    pub fn mark_uncertain(&mut self, dir: NodeId, name: &str) {
+        if let RefName::Valid(n) = names::ref_parse(name) {
+            if !self.uncertain.contains(&(dir, n)) {
+                self.uncertain.push((dir, n));
+            }
+            if let Some(c) = self.child_by_name(dir, &n) {
+                self.nodes[c].tainted = true;
+            }
+        }
+    }
+
     fn is_open_node(&self, n: NodeId) -> bool {
         self.files.iter().any(|f| f.node == n)
     }
@@ -374,9 +395,14 @@ impl Interp {
     /// Run one API call with panic capture.
     fn call<R>(&mut self, info: &mut StepInfo, f: impl FnOnce(&dyn Api) -> R) -> Option<R> {
         self.disk.begin_api_call();
+        let fired0 = self.disk.0.borrow().faults_fired.len();
         let api = self.api.take().unwrap();
         let r = catch_unwind(AssertUnwindSafe(|| f(&*api)));
         self.api = Some(api);
+        if self.disk.0.borrow().faults_fired.len() > fired0 {
+            // an injected device fault fired inside this call, whatever variant it is reported as
+            info.device_error = true;
+        }
         match r {
             Ok(v) => Some(v),
             Err(p) => {
@@ -658,6 +684,13 @@ impl Interp {
                     }
                 };
                 let full = self.dirs.len() >= max_d;
+                if self.opts.faults && self.is_uncertain(od.node, &nm) {
+                    let r = self.call(info, |a| a.open_dir(od.h, &nm, Surf::Raw));
+                    if let Some(Ok(h)) = r {
+                        let _ = self.call(info, |a| a.close_dir(h, Surf::Raw));
+                    }
+                    return;
+                }
                 if is_change {
                     let r = self.call(info, |a| a.change_dir(od.h, &nm));
                     let Some((newh, r)) = r else { return self.panic_div(info) };
@@ -995,6 +1028,17 @@ impl Interp {
     pub fn query_file(&mut self, info: &mut StepInfo, of: &OFile, surf: Surf) {
         let r = self.call(info, |a| (a.length(of.h, surf), a.offset(of.h, surf), a.eof(of.h, surf)));
         let Some((l, o, e)) = r else { return self.panic_div(info) };
+        if self.nodes[of.node].tainted {
+            // contents/length unknown after a failed mutating call: follow the implementation
+            if let (Ok(l), Ok(o)) = (&l, &o) {
+                let n = of.node;
+                self.nodes[n].data.resize(*l as usize, 0);
+                if let Some(f) = self.files.iter_mut().find(|f| f.h == of.h) {
+                    f.off = *o;
+                }
+            }
+            return;
+        }
         let len = self.nodes[of.node].data.len() as u32;
         match l {
             Ok(x) if x == len => {}
@@ -1041,6 +1085,21 @@ impl Interp {
         let r = self.call(info, |a| a.open_file(od.h, &nm, m, surf));
         let Some(r) = r else { return self.panic_div(info) };
         self.note_result(info, &r);
+        if self.opts.faults {
+            if self.is_uncertain(od.node, &nm) {
+                // existence unknown: only keep the implementation's handle table clean
+                if let Ok(h) = r {
+                    let _ = self.call(info, |a| a.close_file(h, Surf::Raw, false));
+                }
+                return;
+            }
+            if info.device_error {
+                if create_mode || mode == 2 {
+                    self.mark_uncertain(od.node, &nm);
+                }
+                return;
+            }
+        }
         let what = format!("open_file_in_dir({:?}, {:?})", nm, m);
         let full = self.files.len() >= max_f;
         let now = tick_to_fat(self.clock.get());
@@ -1340,6 +1399,15 @@ impl Interp {
         let r = self.call(info, |a| a.delete(od.h, &nm, surf));
         let Some(r) = r else { return self.panic_div(info) };
         self.note_result(info, &r);
+        if self.opts.faults {
+            if self.is_uncertain(od.node, &nm) {
+                return;
+            }
+            if info.device_error {
+                self.mark_uncertain(od.node, &nm);
+                return;
+            }
+        }
         let what = format!("delete_file_in_dir({:?})", nm);
         match parsed {
             RefName::DontCare => {}
@@ -1408,6 +1476,15 @@ impl Interp {
         let r = self.call(info, |a| a.mkdir(od.h, &nm, surf));
         let Some(r) = r else { return self.panic_div(info) };
         self.note_result(info, &r);
+        if self.opts.faults {
+            if self.is_uncertain(od.node, &nm) {
+                return;
+            }
+            if info.device_error {
+                self.mark_uncertain(od.node, &nm);
+                return;
+            }
+        }
         let what = format!("make_dir_in_dir({:?})", nm);
         let now = tick_to_fat(self.clock.get());
         if self.dirs.len() >= max_d {
@@ -1490,6 +1567,9 @@ impl Interp {
         let r = self.call(info, |a| a.find(od.h, &nm, surf));
         let Some(r) = r else { return self.panic_div(info) };
         self.note_result(info, &r);
+        if self.opts.faults && (self.is_uncertain(od.node, &nm) || info.device_error) {
+            return;
+        }
         let what = format!("find_directory_entry({:?})", nm);
         match names::ref_parse(&nm) {
             RefName::DontCare => {}
@@ -1586,6 +1666,11 @@ impl Interp {
         }
         let mut want: Vec<[u8; 11]> = self.live_children(od.node).iter().map(|c| self.nodes[*c].name).collect();
         let mut l2 = listed.clone();
+        if self.opts.faults {
+            let unc: Vec<[u8; 11]> = self.uncertain.iter().filter(|(d, _)| *d == od.node).map(|(_, n)| *n).collect();
+            l2.retain(|n| !unc.contains(n));
+            want.retain(|n| !unc.contains(n));
+        }
         l2.sort();
         want.sort();
         if l2 != want {
@@ -1632,8 +1717,13 @@ impl Interp {
                     }
                 }
                 Err(e) => {
+                    info.ok = false;
+                    info.err = Some(format!("{:?}", e));
                     if !(self.opts.faults && ek(&e) == "DeviceError") {
                         self.div("C01", "reread-failed", format!("{}: re-read failed {:?}", self.path_of(of.node), e));
+                    } else {
+                        // the offset may have moved; resync
+                        let _ = self.api().seek_start(of.h, of.off, Surf::Raw);
                     }
                 }
             }
